@@ -201,7 +201,7 @@ func Check(batches []*Batch, status func(*Batch) Status, obs Observation) (probs
 		}
 		got, ok, err := obs.Get([]byte(k))
 		if err != nil {
-			add("read-error", "Get(%x) failed: %v", k, err)
+			add("read-error", "Get(%s) failed: %v", short([]byte(k)), err)
 			continue
 		}
 		st.KeysChecked++
@@ -236,12 +236,12 @@ func Check(batches []*Batch, status func(*Batch) Status, obs Observation) (probs
 			} else if len(poss) == 1 && poss[0].del {
 				kind = "phantom-value"
 			}
-			add(kind, "key %x holds %s; explainable values: %v", k, g, want)
+			add(kind, "key %s holds %s; explainable values: %v", short([]byte(k)), g, want)
 		}
 	}
 	for _, p := range obs.All {
 		if !universe[string(p.K)] {
-			add("never-written-key", "iteration yields key %x = %s which no batch ever wrote", p.K, short(p.V))
+			add("never-written-key", "iteration yields key %s = %s which no batch ever wrote", short(p.K), short(p.V))
 		}
 	}
 	return
